@@ -29,12 +29,12 @@ func TestProp(t *testing.T) {
 		return
 	}
 	r.SetRule("differential against ref/kcrypto: string-to-key (etype x password classes empty/ASCII/Latin-1/BMP/combining/supplementary/long x salts x iteration counts; thorough: plus 30 seeded passwords and 10 seeded salts over all Unicode planes), malformed parameters, " +
-		"n-fold (every input length 1..64 x outputs 64/128/168/192/256 bits x 3 contents), DK/DR (constants of every length 1..16 for 17/18, 1..8 for 16; usage labels for 19/20), " +
+		"n-fold (every input length 1..64 x outputs 64/128/168/192/256 bits x 3 contents), DK/DR (constants of every length 1..16 for 16/17/18, n-folded to the block size whenever their length differs from it; usage labels for 19/20), " +
 		"des3 random-to-key incl. crafted weak/semi-weak groups, PA-data precedence (every permutation of every subset of INFO2/INFO/PW-SALT, hints naming other etypes; client logins against a simulated KDC that sends both hints in either order with non-default salt and iteration count), generated keys per etype incl. the kpasswd request subkey. " +
 		"distinct = case key; non-trivial = all (each compares a computed value)")
 	r.Assume("reference ref/kcrypto self-tested against RFC 3961 A.1/A.3/A.4, RFC 3962 B, RFC 8009 A vectors")
 	r.Note("not exercised: PBKDF2 iteration parameter 0 (= 2^32 iterations, not computable); des3 with empty password and empty salt (n-fold of nothing undefined)")
-	r.Note("observe-only (not judged): des3 string-to-key with non-empty params; empty s2kparams string at the EType API; DK constants longer than the cipher block; PA-data hints whose first etype differs from the requested etype")
+	r.Note("observe-only (not judged): des3 string-to-key with non-empty params; empty s2kparams string at the EType API; PA-data hints whose first etype differs from the requested etype")
 
 	var tasks []func()
 	add := func(f func()) { tasks = append(tasks, f) }
@@ -43,6 +43,7 @@ func TestProp(t *testing.T) {
 	dkTasks(r, add)
 	r2kTasks(r, add)
 	padataTasks(r, add)
+	defaultSaltTasks(r, add)
 	loginTasks(r, add)
 	genkeyTasks(r, add)
 	vh.Workers(len(tasks), func(i int) { tasks[i]() })
@@ -52,6 +53,7 @@ func TestProp(t *testing.T) {
 	r.Require("dk_equal", 300)
 	r.Require("r2k_equal", 100)
 	r.Require("padata_key_equal", 60)
+	r.Require("default_salt_equal", 60)
 	r.Require("login_preauth_key_as_selected_by_hints", 40)
 	r.Require("generated_key_usable", 600)
 	r.Require("malformed_params_rejected", 10)
@@ -273,10 +275,11 @@ func dkTasks(r *vh.Run, add func(func())) {
 					add(func() {
 						constant := vh.NewRand("c08dkc", ck).Bytes(cl)
 						if et == 16 && cl > 8 {
-							// RFC 3961 defines n-fold expansion only for constants shorter than the block: observe only
-							e.DeriveKey(key, constant)
-							r.Inc("observe_dk_constant_longer_than_block")
-							return
+							// RFC 3961 5.1 spells out the n-fold step for constants shorter than the block; for a longer one the only
+							// way to "encrypt the constant" with a one-block E is the same n-fold down to the block size, which is
+							// what MIT and Heimdal do (n-fold whenever the length differs from the block). The statement's
+							// enumeration asks for every length 1..16 for every etype, so these are judged with that reading.
+							r.Inc("dk_constant_longer_than_block_judged")
 						}
 						r.Eval(ck, true)
 						wantR, _ := kcrypto.DR(et, key, constant)
@@ -488,15 +491,20 @@ func padataTasks(r *vh.Run, add func(func())) {
 	}
 	saltA, saltB, saltC := "SALT-A-from-etype-info2", "SALT-B-from-etype-info", "SALT-C-from-pw-salt"
 	cname := types.PrincipalName{NameType: 1, NameString: []string{"alice", "admin"}}
-	realm := "TEST.GOKRB5"
 	pw := "pässword-\U0001D11E"
+	// realm names are case sensitive and go into the default salt as they are written
+	realms := []string{"TEST.GOKRB5", "test.gokrb5", "Mixed.Case.Realm"}
 	for _, et := range kcrypto.Etypes {
 		et := et
-		for _, seq := range seqs {
-			for _, variant := range []string{"salts", "info2-nosalt", "multi-entry", "first-entry-other-etype", "overridden-info-names-other-etype"} {
+		for si, seq := range seqs {
+			realm := realms[(si+int(et))%len(realms)]
+			for _, variant := range []string{"salts", "info2-nosalt", "info-nosalt", "multi-entry", "first-entry-other-etype", "overridden-info-names-other-etype"} {
 				seq, variant := seq, variant
 				ck := fmt.Sprintf("padata/et=%d/%s/%s", et, strings.Join(seq, ">"), variant)
 				if len(seq) == 0 && variant != "salts" {
+					continue
+				}
+				if variant == "info-nosalt" && !strings.Contains(strings.Replace(ck, "INFO2", "", -1), "INFO") {
 					continue
 				}
 				if variant == "overridden-info-names-other-etype" && !(strings.Contains(ck, "INFO2") && strings.Contains(strings.Replace(ck, "INFO2", "", -1), "INFO")) {
@@ -538,6 +546,10 @@ func padataTasks(r *vh.Run, add func(func())) {
 							pas = append(pas, types.PAData{PADataType: 19, PADataValue: etypeInfo2(entries...)})
 						case "INFO":
 							entries := [][]byte{infoEntry(et, &saltB)}
+							if variant == "info-nosalt" {
+								// salt is OPTIONAL in an ETYPE-INFO-ENTRY: without it the default salt applies, not a lower-precedence hint's
+								entries = [][]byte{infoEntry(et, nil)}
+							}
 							if variant == "overridden-info-names-other-etype" {
 								entries = [][]byte{infoEntry(other, &saltB)}
 							}
@@ -566,7 +578,9 @@ func padataTasks(r *vh.Run, add func(func())) {
 							iter = iterA
 						}
 					case has["INFO"]:
-						salt = saltB
+						if variant != "info-nosalt" {
+							salt = saltB
+						}
 					case has["PWSALT"]:
 						salt = saltC
 					}
@@ -615,6 +629,57 @@ func padataTasks(r *vh.Run, add func(func())) {
 					}
 				})
 			}
+		}
+	}
+}
+
+// defaultSaltTasks: without a hint the salt is the realm followed by the name components, octet for octet as they are written
+// (RFC 4120 4: "the concatenation of the principal's realm and name components, in order, with no separators"): realm and
+// components in any letter case, non-ASCII, empty, any number of components; value of PrincipalName.GetSalt and the key
+// GetKeyFromPassword derives with no PA-data.
+func defaultSaltTasks(r *vh.Run, add func(func())) {
+	realms := []string{"TEST.GOKRB5", "test.gokrb5", "Mixed.Case.Realm", "RÉALM.ÉXAMPLE", "réalm.example", "", "ATHENA.MIT.EDU", "x"}
+	names := [][]string{{"testuser1"}, {"TestUser1"}, {"host", "Server.Example.COM"}, {"jürgen"}, {"a", "b", "c"}, {""}, {}, {"ALLCAPS", "lower"}}
+	pw := "default-salt-\u00e9"
+	for ri, realm := range realms {
+		for ni, name := range names {
+			realm, name := realm, name
+			ck := fmt.Sprintf("default-salt/realm=%d/name=%d", ri, ni)
+			if !r.Mine(ck) {
+				continue
+			}
+			add(func() {
+				r.Eval(ck, true)
+				want := kcrypto.DefaultSalt(realm, name)
+				pn := types.PrincipalName{NameType: 1, NameString: name}
+				var got string
+				if p, v, w := vh.Guard(func() { got = pn.GetSalt(realm) }); p {
+					r.Violation("C08|default-salt|panic|"+w, "PrincipalName.GetSalt panicked: "+v, map[string]any{"case": ck})
+					return
+				}
+				d := map[string]any{"case": ck, "realm": realm, "name": name, "expected_salt": want, "got_salt": got}
+				if got != want {
+					r.Violation("C08|default-salt|value", fmt.Sprintf("PrincipalName.GetSalt(%q) = %q, the default salt is %q", realm, got, want), d)
+					return
+				}
+				for _, et := range []int32{18, 17, 20, 16} {
+					wantK, err := kcrypto.StringToKey(et, pw, want, 0)
+					if err != nil {
+						continue
+					}
+					var key types.EncryptionKey
+					if p, v, w := vh.Guard(func() { key, _, err = crypto.GetKeyFromPassword(pw, pn, realm, et, nil) }); p {
+						r.Violation("C08|default-salt|panic|"+w, "GetKeyFromPassword panicked: "+v, d)
+						return
+					}
+					if err != nil || !bytes.Equal(key.KeyValue, wantK) {
+						d["etype"], d["expected_key"], d["got_key"], d["err"] = et, fmt.Sprintf("%x", wantK), fmt.Sprintf("%x", key.KeyValue), fmt.Sprint(err)
+						r.Violation(fmt.Sprintf("C08|default-salt|key|etype=%d", et), "GetKeyFromPassword without PA-data does not derive the key of the default salt", d)
+						return
+					}
+				}
+				r.Inc("default_salt_equal")
+			})
 		}
 	}
 }
